@@ -142,6 +142,8 @@ def check(prop, tier, seed):
         raise ToolError('too few schedules exported')
     stims += biased_schedules(rnd, 2000 if tier == 'thorough' else 300)
     stims += timeout_schedules(rnd, 600 if tier == 'thorough' else 100)
+    for i, st in enumerate(stims):      # a third of the servers get a tower layer after their builder options (Server::layer must keep them)
+        st['layer'] = i % 3 == 1
     ev, path = simple.run_lab('shutdown', stims, tag, 'schedules')
     simple.validate(prop, 'Trace_Shutdown', verdict, ev, path, 'schedules', cov, clause_filter=lambda c: c.startswith('C13.') or c in ('NoPanic', 'NoHang'))
     mech_validate(verdict, cov, ev, tag, 'schedules')
